@@ -4718,6 +4718,7 @@ impl PeerConnectionInner {
         }
 
         let mut remote_offered_bundle = false;
+        let mut remote_bundle_mids: Vec<String> = Vec::new();
 
         let ordered_transceivers = if sdp_type == SdpType::Answer {
             let remote_guard = self.remote_description.lock();
@@ -4731,6 +4732,8 @@ impl PeerConnectionInner {
                     && val.starts_with("BUNDLE")
                 {
                     remote_offered_bundle = true;
+                    remote_bundle_mids
+                        .extend(val.split_whitespace().skip(1).map(|m| m.to_string()));
                 }
             }
 
@@ -4897,29 +4900,30 @@ impl PeerConnectionInner {
                 None
             };
 
-            // Check if remote side expects us to send (for B2BUA scenarios)
-            let remote_expects_media = if sdp_type == SdpType::Answer {
-                let remote_guard = self.remote_description.lock();
-                if let Some(remote) = remote_guard.as_ref() {
-                    // Find the matching remote section by mid
-                    remote
-                        .media_sections
-                        .iter()
-                        .find(|section| section.mid == mid)
-                        .map(|section| {
-                            // Remote expects media if their direction is sendrecv or sendonly
-                            matches!(
-                                section.direction,
-                                crate::sdp::Direction::SendRecv | crate::sdp::Direction::SendOnly
-                            )
-                        })
-                        .unwrap_or(false)
-                } else {
-                    false
-                }
+            // The remote section this section answers. Answer sections are generated in the
+            // order of the remote offer (see `ordered_transceivers` above), so it is the one at
+            // the same position; matching by MID would pick the first section for every
+            // MID-less section of a legacy offer.
+            let answered_section: Option<MediaSection> = if sdp_type == SdpType::Answer {
+                self.remote_description
+                    .lock()
+                    .as_ref()
+                    .and_then(|remote| remote.media_sections.get(media_index).cloned())
             } else {
-                false
+                None
             };
+
+            // Check if remote side expects us to send (for B2BUA scenarios)
+            let remote_expects_media = answered_section
+                .as_ref()
+                .map(|section| {
+                    // Remote expects media if their direction is sendrecv or sendonly
+                    matches!(
+                        section.direction,
+                        crate::sdp::Direction::SendRecv | crate::sdp::Direction::SendOnly
+                    )
+                })
+                .unwrap_or(false);
 
             // If we are supposed to send, but have no sender (and it's not Application),
             // we must downgrade direction to avoid ghost tracks.
@@ -5062,7 +5066,12 @@ impl PeerConnectionInner {
                 }
             }
 
-            self.populate_media_capabilities(&mut section, transceiver.kind(), sdp_type);
+            self.populate_media_capabilities(
+                &mut section,
+                transceiver.kind(),
+                sdp_type,
+                answered_section.as_ref(),
+            );
             if sdp_type == SdpType::Answer && !remote_offered_rtcp_mux {
                 section.attributes.retain(|attr| attr.key != "rtcp-mux");
             }
@@ -5179,11 +5188,19 @@ impl PeerConnectionInner {
 
         if !desc.media_sections.is_empty() {
             if will_bundle {
-                let mids: Vec<String> = desc.media_sections.iter().map(|m| m.mid.clone()).collect();
-                let value = format!("BUNDLE {}", mids.join(" "));
-                desc.session
-                    .attributes
-                    .push(Attribute::new("group", Some(value)));
+                // An answer may only keep m= sections in the group that the offer put there.
+                let mids: Vec<String> = desc
+                    .media_sections
+                    .iter()
+                    .map(|m| m.mid.clone())
+                    .filter(|mid| sdp_type != SdpType::Answer || remote_bundle_mids.contains(mid))
+                    .collect();
+                if !mids.is_empty() {
+                    let value = format!("BUNDLE {}", mids.join(" "));
+                    desc.session
+                        .attributes
+                        .push(Attribute::new("group", Some(value)));
+                }
             }
 
             // In LegacySip mode, omit a=mid entirely: legacy SIP endpoints confuse
@@ -5326,25 +5343,62 @@ impl PeerConnectionInner {
         section: &mut MediaSection,
         kind: MediaKind,
         sdp_type: SdpType,
+        answered_section: Option<&MediaSection>,
     ) {
         section.apply_config(&self.config);
-        if let Some(caps) = self.reinvite_answer_audio_capabilities(&section.mid, kind, sdp_type) {
-            Self::apply_audio_capabilities(section, &caps);
+
+        // The remote section whose payload types / extension ids this section follows: the
+        // section being answered, or (offers) the remote section carrying the same MID.
+        let remote_section: Option<MediaSection> = match answered_section {
+            Some(remote) => Some(remote.clone()),
+            None => self.remote_section_by_mid(&section.mid),
+        };
+        let remote_section = remote_section.as_ref();
+
+        // Answerer: list only codecs the offer proposed for this section, under the payload
+        // type numbers the offer bound them to (RFC 3264 section 6.1).
+        if sdp_type == SdpType::Answer
+            && let Some(remote) = answered_section
+        {
+            match kind {
+                MediaKind::Audio => {
+                    let local = Self::configured_audio_capabilities(&self.config);
+                    let caps = Self::derive_answer_audio_capabilities(remote, &local);
+                    if !caps.is_empty() {
+                        Self::apply_audio_capabilities(section, &caps);
+                    }
+                }
+                MediaKind::Video => {
+                    let local = Self::configured_video_capabilities(&self.config);
+                    let caps = Self::derive_answer_video_capabilities(remote, &local);
+                    if !caps.is_empty() {
+                        Self::apply_video_capabilities(section, &caps);
+                    }
+                }
+                _ => {}
+            }
         }
 
         // Answerer: strip any local-config RTX (apply_config may inject it), then
         // echo only RTX from the remote offer when apt= maps to an answered primary PT.
         if sdp_type == SdpType::Answer && kind == MediaKind::Video {
             strip_rtx_from_section(section);
-            self.merge_remote_rtx_into_answer(section);
+            Self::merge_remote_rtx_into_answer(section, remote_section);
         }
 
         // Browsers reject descriptions with duplicate extension ids.
-        let mut used_extmap_ids = self.get_remote_extmap_ids(&section.mid);
+        let mut used_extmap_ids = Self::remote_extmap_ids(remote_section);
 
         // Add extmap for Video
         if kind == MediaKind::Video {
-            let (mut rid_id, mut repaired_rid_id) = self.get_remote_video_extmap_ids(&section.mid);
+            let mut rid_id = Self::remote_extmap_id(
+                remote_section,
+                "urn:ietf:params:rtp-hdrext:sdes:rtp-stream-id",
+            );
+            let mut repaired_rid_id = Self::remote_extmap_id(
+                remote_section,
+                "urn:ietf:params:rtp-hdrext:sdes:repaired-rtp-stream-id",
+            );
 
             if sdp_type == SdpType::Offer && self.config.transport_mode != TransportMode::Rtp {
                 // If not found in remote (new transceiver), use defaults
@@ -5361,7 +5415,7 @@ impl PeerConnectionInner {
 
         // Add abs-send-time extmap
         let mut abs_send_time_id =
-            self.get_remote_extmap_id(&section.mid, crate::sdp::ABS_SEND_TIME_URI);
+            Self::remote_extmap_id(remote_section, crate::sdp::ABS_SEND_TIME_URI);
         if sdp_type == SdpType::Offer
             && abs_send_time_id.is_none()
             && self.config.transport_mode != TransportMode::Rtp
@@ -5379,7 +5433,7 @@ impl PeerConnectionInner {
         // remote ID when offered; WebRTC offers use a default ID so bundled
         // audio/video can still be demuxed when payload types overlap.
         if self.config.sdp_compatibility != crate::config::SdpCompatibilityMode::LegacySip {
-            let mut sdes_mid_id = self.get_remote_extmap_id(&section.mid, crate::sdp::SDES_MID_URI);
+            let mut sdes_mid_id = Self::remote_extmap_id(remote_section, crate::sdp::SDES_MID_URI);
             if sdp_type == SdpType::Offer
                 && sdes_mid_id.is_none()
                 && self.config.transport_mode != TransportMode::Rtp
@@ -5435,37 +5489,78 @@ impl PeerConnectionInner {
             .unwrap_or_else(|| vec![default_caps])
     }
 
-    fn reinvite_answer_audio_capabilities(
-        &self,
-        mid: &str,
-        kind: MediaKind,
-        sdp_type: SdpType,
-    ) -> Option<Vec<AudioCapability>> {
-        if kind != MediaKind::Audio || sdp_type != SdpType::Answer {
-            return None;
+    fn configured_video_capabilities(config: &RtcConfiguration) -> Vec<VideoCapability> {
+        let default_caps = VideoCapability::default();
+        config
+            .media_capabilities
+            .as_ref()
+            .map(|caps| {
+                if caps.video.is_empty() {
+                    vec![default_caps.clone()]
+                } else {
+                    caps.video.clone()
+                }
+            })
+            .unwrap_or_else(|| vec![default_caps])
+    }
+
+    /// Locally supported video codecs among those the remote section offers, in the remote's
+    /// preference order and under the remote's payload type numbers. RTX is not a codec of
+    /// its own here; it is echoed separately from the offer's `apt=` associations.
+    fn derive_answer_video_capabilities(
+        remote_section: &MediaSection,
+        local_caps: &[VideoCapability],
+    ) -> Vec<VideoCapability> {
+        remote_section
+            .to_video_capabilities()
+            .into_iter()
+            .filter_map(|remote_cap| {
+                local_caps
+                    .iter()
+                    .find(|local_cap| {
+                        local_cap
+                            .codec_name
+                            .eq_ignore_ascii_case(&remote_cap.codec_name)
+                            && local_cap.clock_rate == remote_cap.clock_rate
+                    })
+                    .map(|local_cap| {
+                        let mut cap = local_cap.clone();
+                        cap.payload_type = remote_cap.payload_type;
+                        cap.codec_name = remote_cap.codec_name.clone();
+                        cap.rtx_payload_type = None;
+                        cap
+                    })
+            })
+            .collect()
+    }
+
+    fn apply_video_capabilities(section: &mut MediaSection, caps: &[VideoCapability]) {
+        section.formats = caps.iter().map(|c| c.payload_type.to_string()).collect();
+        section
+            .attributes
+            .retain(|attr| attr.key != "rtpmap" && attr.key != "fmtp" && attr.key != "rtcp-fb");
+
+        for video in caps {
+            section.attributes.push(Attribute::new(
+                "rtpmap",
+                Some(format!(
+                    "{} {}/{}",
+                    video.payload_type, video.codec_name, video.clock_rate
+                )),
+            ));
+            if let Some(fmtp) = &video.fmtp {
+                section.attributes.push(Attribute::new(
+                    "fmtp",
+                    Some(format!("{} {}", video.payload_type, fmtp)),
+                ));
+            }
+            for fb in &video.rtcp_fbs {
+                section.attributes.push(Attribute::new(
+                    "rtcp-fb",
+                    Some(format!("{} {}", video.payload_type, fb)),
+                ));
+            }
         }
-
-        if self.local_description.lock().is_none() {
-            return None;
-        }
-
-        let remote = self.remote_description.lock();
-        let remote_desc = remote.as_ref()?;
-        let remote_section = if mid.is_empty() {
-            remote_desc
-                .media_sections
-                .iter()
-                .find(|section| section.kind == kind)
-        } else {
-            remote_desc
-                .media_sections
-                .iter()
-                .find(|section| section.kind == kind && section.mid == mid)
-        }?;
-
-        let local_caps = Self::configured_audio_capabilities(&self.config);
-        let caps = Self::derive_answer_audio_capabilities(remote_section, &local_caps);
-        if caps.is_empty() { None } else { Some(caps) }
     }
 
     fn derive_answer_audio_capabilities(
@@ -5536,21 +5631,11 @@ impl PeerConnectionInner {
 
     /// Echo remote-offered RTX payload types into a local answer when the
     /// associated primary PT is present in the answer media section.
-    fn merge_remote_rtx_into_answer(&self, section: &mut MediaSection) {
-        let remote = self.remote_description.lock();
-        let Some(desc) = remote.as_ref() else {
-            return;
-        };
-        let Some(remote_section) = desc
-            .media_sections
-            .iter()
-            .find(|s| s.mid == section.mid)
-            .or_else(|| {
-                desc.media_sections
-                    .iter()
-                    .find(|s| s.kind == MediaKind::Video)
-            })
-        else {
+    fn merge_remote_rtx_into_answer(
+        section: &mut MediaSection,
+        remote_section: Option<&MediaSection>,
+    ) {
+        let Some(remote_section) = remote_section else {
             return;
         };
 
@@ -5585,42 +5670,33 @@ impl PeerConnectionInner {
         }
     }
 
-    fn get_remote_video_extmap_ids(&self, mid: &str) -> (Option<String>, Option<String>) {
-        let rid_id =
-            self.get_remote_extmap_id(mid, "urn:ietf:params:rtp-hdrext:sdes:rtp-stream-id");
-        let repaired_rid_id = self.get_remote_extmap_id(
-            mid,
-            "urn:ietf:params:rtp-hdrext:sdes:repaired-rtp-stream-id",
-        );
-        (rid_id, repaired_rid_id)
+    fn remote_section_by_mid(&self, mid: &str) -> Option<MediaSection> {
+        let remote = self.remote_description.lock();
+        remote
+            .as_ref()
+            .and_then(|desc| desc.media_sections.iter().find(|s| s.mid == mid).cloned())
     }
 
-    fn get_remote_extmap_id(&self, mid: &str, uri: &str) -> Option<String> {
-        let remote = self.remote_description.lock();
-        if let Some(desc) = &*remote {
-            let remote_section = desc.media_sections.iter().find(|s| s.mid == mid)?;
-            for attr in &remote_section.attributes {
-                if attr.key != "extmap" {
-                    continue;
-                }
-                let val = attr.value.as_ref()?;
-                if val.contains(uri)
-                    && let Some(id_str) = val.split_whitespace().next()
-                {
-                    return Some(id_str.to_string());
-                }
+    /// The id `remote_section` maps `uri` to, if it does.
+    fn remote_extmap_id(remote_section: Option<&MediaSection>, uri: &str) -> Option<String> {
+        for attr in &remote_section?.attributes {
+            if attr.key != "extmap" {
+                continue;
+            }
+            let val = attr.value.as_ref()?;
+            if val.contains(uri)
+                && let Some(id_str) = val.split_whitespace().next()
+            {
+                return Some(id_str.to_string());
             }
         }
         None
     }
 
     /// All extension ids the remote has mapped on the given m-line.
-    fn get_remote_extmap_ids(&self, mid: &str) -> std::collections::HashSet<u8> {
+    fn remote_extmap_ids(remote_section: Option<&MediaSection>) -> std::collections::HashSet<u8> {
         let mut ids = std::collections::HashSet::new();
-        let remote = self.remote_description.lock();
-        if let Some(desc) = &*remote
-            && let Some(remote_section) = desc.media_sections.iter().find(|s| s.mid == mid)
-        {
+        if let Some(remote_section) = remote_section {
             for attr in &remote_section.attributes {
                 if attr.key == "extmap"
                     && let Some(val) = &attr.value
